@@ -1,7 +1,12 @@
 """Process-death injection for a save routine: the routine runs in a forked child in which every IO
 primitive it can use for the write (open/io.open for writing, file.write/flush, os.fsync, os.replace/rename)
-is wrapped and logged; the child really dies (os._exit) at a chosen event / byte offset. Bytes already passed
-to write() before the crash are flushed to the file (process death, not power loss); bytes not yet written are lost.
+is wrapped and logged; the child really dies (os._exit) at a chosen event / byte offset.
+
+What survives a process death: everything the process has handed to the operating system. What is still in the
+file object's user-space buffer is LOST (os._exit runs no finalisers), unless the buffer happened to be flushed
+just before - both outcomes are real, so every crash point is executed in two variants: 'before'/'after' (die at
+once, buffers lost) and 'before+flush'/'after+flush' (the buffers were written out first). A crash at byte offset k
+inside a write hands the first k bytes to the OS and dies. Power loss (fsync durability) is not modelled.
 """
 import builtins
 import io
@@ -52,12 +57,13 @@ class _Ctl:
         self.logfd = logfd
         self.open_files = []
 
-    def _die(self):
-        for f in self.open_files:
-            try:
-                f._real.flush()
-            except Exception:  # noqa
-                pass
+    def _die(self, flush):
+        if flush:
+            for f in self.open_files:
+                try:
+                    f._real.flush()
+                except Exception:  # noqa
+                    pass
         os._exit(77)
 
     def event(self, kind, n, f=None, data=None):
@@ -65,15 +71,15 @@ class _Ctl:
         os.write(self.logfd, f"{self.i} {kind} {n}\n".encode())
         if self.crash is not None and self.crash[0] == self.i:
             how = self.crash[1]
-            if how == "before":
-                self._die()
+            if how in ("before", "before+flush"):
+                self._die(how.endswith("+flush"))
             if isinstance(how, int) and kind == "write":
                 f._real.write(data[: max(0, min(how, n))])
-                self._die()
+                self._die(True)
 
     def after(self):
-        if self.crash is not None and self.crash[0] == self.i and self.crash[1] == "after":
-            self._die()
+        if self.crash is not None and self.crash[0] == self.i and self.crash[1] in ("after", "after+flush"):
+            self._die(self.crash[1].endswith("+flush"))
 
 
 def run_in_child(fn, crash=None):
